@@ -26,12 +26,12 @@ EXPLANATION = (
 )
 TRUSTED = ["z3 (QF_UFBV)", "pysym abstract mode: Unknown joins, lenient evaluation of unsupported expressions to 'Unknown that may raise' (never for statements that write precision)",
            "inductive hypothesis: callees that do not themselves write the precision state, and user callbacks, are precision-preserving",
-           "lemma prec_to_dps(dps_to_prec(d)) == d for 1 <= d <= 2^20 and the setters' invariant (checked by the lemma obligations of this check)",
+           "standard model of IEEE double arithmetic (relative error 2^-53 per operation) for the lemma prec_to_dps(dps_to_prec(d)) == d, 1 <= d <= 2^20, which is discharged by z3 (QF_LIRA) in the lemma_roundtrip obligation; the setters' invariant is discharged by the setters obligations",
            "loops explored 0..2 iterations (precision state must be loop-invariant beyond that)"]
 ASSUMPTIONS = ["crash points are call boundaries (an exception raised between two bytecodes, e.g. KeyboardInterrupt, is outside)",
                "deliberate setters (prec/dps properties, default, clone, context-manager __enter__) are exempt"]
-BUDGET = {'quick': dict(ob_deadline_s=45, total_s=165), 'thorough': dict(ob_deadline_s=600, total_s=3000)}
-BOUNDS = {'quick': 'every public callable of mp (not starting with _) whose source is retrievable; inlining depth <= 8 for precision-writing callees; loops <= 2 iterations; entry precision 1..2^20'}
+BUDGET = {'quick': dict(ob_deadline_s=45, total_s=260), 'thorough': dict(ob_deadline_s=600, total_s=3000)}
+BOUNDS = {'quick': 'every public callable of mp (not starting with _) whose source is retrievable, and every public callable of iv whose own body writes the precision (thorough: all of iv); inlining depth <= 8 for precision-writing callees; loops <= 2 iterations; entry precision 1..2^20'}
 
 EXEMPT = {'default', 'clone', 'mpf', 'mpc', 'matrix', 'constant', 'mpi', 'mpq', 'context', 'iv', 'fp', 'mp', 'NoConvergence', 'ComplexResult', 'runtests', 'doctests',
           'plot', 'cplot', 'splot', 'pretty', 'trap_complex', 'verbose'}
@@ -60,7 +60,10 @@ def entry_points(ctx_name='mp'):
 
 # entry points known to be slow to explore abstractly are given to the thorough tier only
 def obligations(tier, seed=0):
-    obs = []
+    obs = [(FP + 'lemma_roundtrip', {})]
+    for kind in ('mp', 'iv'):
+        for which in ('prec', 'dps'):
+            obs.append((FP + 'setters', dict(ctx=kind, which=which)))
     for m in MANAGERS:
         obs.append((FP + 'restore', dict(ctx='mp', name=m, mode='with')))
         obs.append((FP + 'restore', dict(ctx='mp', name=m, mode='decorated')))
@@ -83,6 +86,13 @@ def obligations(tier, seed=0):
         if tier == 'thorough':
             p['_t'] = 120
         obs.append((FP + 'restore', p))
-    for m in ('workprec', 'workdps', 'extraprec', 'extradps'):
-        pass
+    # the interval context has its own precision slots (iv._prec[0], iv._dps) and setters; most entry points share their
+    # source with mp's.  Quick tier: those whose own body writes the precision; thorough tier: all of them.
+    for n in entry_points('iv'):
+        f = getattr(getattr(mpmath.iv, n), '__func__', getattr(mpmath.iv, n))
+        if tier == 'thorough' or touches(f):
+            p = dict(ctx='iv', name=n)
+            if tier == 'thorough':
+                p['_t'] = 120
+            obs.append((FP + 'restore', p))
     return obs
